@@ -6,7 +6,7 @@
    selections / connects / disconnects for e in ops. *)
 From Coq Require Import List String NArith ZArith Bool Arith Permutation.
 From Piko Require Import Base.Maps Base.Strs Gossip.Types Gossip.Local Upstream.Balancer Upstream.Manager.
-From Piko Require Import UpstreamP.BalancerP UpstreamP.ManagerP UpstreamP.Statements.
+From Piko Require Import UpstreamP.BalancerP UpstreamP.ManagerP UpstreamP.Statements UpstreamP.ChurnP.
 Import ListNotations.
 Open Scope string_scope. Open Scope list_scope. Open Scope nat_scope.
 
@@ -151,6 +151,58 @@ Example C15_removal_can_skip :
   snd (lb_run b [BRemove 1; BNext; BNext; BNext]%N) = [Some 2; Some 3; Some 4]%N.
 Proof. vm_compute. split; reflexivity. Qed.
 
+(* Sharper, and what separates the real Remove from a Remove that restarts the rotation (UpstreamP/ChurnP.v): only a
+   disconnect of an upstream stored IN FRONT of u can cost u more than one turn. Connects are appended behind, so a
+   connection that keeps flapping, or any churn among upstreams that connected after u, never delays u beyond one
+   round of the largest set the endpoint held meanwhile:
+   if the endpoint never holds more than M upstreams during [more] and f disconnects in [more] hit an upstream
+   stored in front of u at that moment, then u is selected within (1 + f) * (M - 1) + 1 selections for e. *)
+Theorem C15_no_starvation_churn : forall id g p a ops e u more M,
+  let s := mrun (minit id g p a) ops in
+  In u (registered e ops) ->
+  (forall o, In o more -> o <> MRemove u e) ->
+  maxlen (view e s) (mprojs e more) <= M ->
+  (1 + front_removals u (view e s) (mprojs e more)) * (M - 1) < sel_count e more ->
+  In (SLocal u) (fst (mrun_sel e s more)).
+Proof. exact c15_no_starvation_churn. Qed.
+
+Theorem C15_no_starvation_churn_balancer : forall ops more u M,
+  let b := fst (lb_run lb_empty ops) in
+  In u (ups b) -> (forall v, In (BRemove v) more -> v <> u) ->
+  maxlen b more <= M ->
+  (1 + front_removals u b more) * (M - 1) < count_next more ->
+  In (Some u) (snd (lb_run b more)).
+Proof. exact c15_no_starvation_churn_balancer. Qed.
+
+(* the hypotheses are satisfiable, and the bound is what the run shows: upstreams 1 2 3, the cursor on 2; upstream 9
+   flaps (connect, one selection, disconnect) - M = 4, no removal in front of 3 - and 3 is served by the 2nd selection *)
+Example C15_no_starvation_churn_hyp :
+  let ops := [BAdd 1; BAdd 2; BAdd 3; BNext]%N in
+  let more := [BAdd 9; BNext; BRemove 9; BAdd 9; BNext; BRemove 9; BAdd 9; BNext; BRemove 9; BNext]%N in
+  let b := fst (lb_run lb_empty ops) in
+  In 3%N (ups b) /\ maxlen b more <= 4 /\ front_removals 3%N b more = 0 /\ (1 + 0) * (4 - 1) < count_next more /\
+  snd (lb_run b more) = [Some 2; Some 3; Some 1; Some 2]%N.
+Proof. vm_compute. repeat split; auto. Qed.
+
+(* a flapping connection x never keeps either of two stable upstreams waiting: k >= 3 rounds of
+   (x connects, one selection, x disconnects) serve both *)
+Theorem C15_flapping_serves_both : forall a u x k,
+  a <> x -> u <> x -> a <> u -> 3 <= k ->
+  let r := snd (lb_run {| ups := [a; u]; nxt := 0 |} (flap x k)) in In (Some a) r /\ In (Some u) r.
+Proof. exact flap_serves_both. Qed.
+
+(* ... whereas a Remove that resets nextIndex to 0 ("the indexes have shifted, restart at the first upstream":
+   seeded change C15-2) serves only the first one, for ever. That variant satisfies the coarse bound of
+   C15_no_starvation; it is C15_no_starvation_churn that excludes it. *)
+Theorem C15_reset_variant_refuted : forall a u x k,
+  a <> x -> u <> x ->
+  lb_run_reset {| ups := [a; u]; nxt := 0 |} (flap x k) = ({| ups := [a; u]; nxt := 0 |}, repeat (Some a) k).
+Proof. exact reset_variant_starves. Qed.
+
+Print Assumptions C15_no_starvation_churn.
+Print Assumptions C15_no_starvation_churn_balancer.
+Print Assumptions C15_flapping_serves_both.
+Print Assumptions C15_reset_variant_refuted.
 Print Assumptions C15_inv_balancer.
 Print Assumptions C15_next_never_nil.
 Print Assumptions C15_inv.
